@@ -328,7 +328,9 @@ def run(tier, seed, replay=None):
                 at = collections.Counter(d for t, d, a in w.origin.rx if d.startswith(marker))
                 corrupt = [d for d in at if d not in mine]
                 dup = [d for d in at if d in mine and at[d] > 1]
-                foreign = [(k, g) for k in res for g in res[k][1] if g not in res[k][0]]
+                # replies a client received that it never sent - counted when they belong to this run (its marker): a late reply of an
+                # earlier scenario at a reused client port is not what this scenario is about
+                foreign = [(k, g) for k in res for g in res[k][1] if g not in res[k][0] and g.startswith(marker)]
                 lost = sum(1 for p_ in mine if at[p_] == 0)
                 noreply = sum(1 for k in res for p_ in res[k][0] if p_ not in res[k][1])
                 storm_stats.append(dict(path=pth, attempt=attempt, sessions=n_storm, datagrams=len(mine), corrupt=len(corrupt), duplicated=len(dup), foreign_replies=len(foreign), lost=lost, no_reply=noreply))
@@ -373,7 +375,10 @@ def run(tier, seed, replay=None):
                         pass
                     total_s += 3
                     missing_s += len([x for x in pls[k] if x not in got_])
-                    foreign_s += [(k, g) for g in got_ if g not in pls[k]]
+                    # a datagram of ANOTHER session of this round (a late reply of an earlier round at a reused client port is not
+                    # what this scenario is about and is not counted)
+                    round_all = set(x for pl_ in pls for x in pl_)
+                    foreign_s += [(k, g) for g in got_ if g not in pls[k] and g in round_all]
                     all_extra += pls[k]
                     s_.close()
             n_eval += 1
